@@ -12,10 +12,12 @@
 (*   ints   items: [x, wres, enc, canary, rres, rv, rused, rw, xres, xenc, sres] *)
 (*          write_int(x) into 5 bytes, then read_int of the output         *)
 (*   decs   items: [b, res, v, used, w]        read_int on arbitrary bytes *)
-(*   pk_new cap / w k x b res after / pk_end res written canary            *)
-(*   up_new demo data src pad / r o n res v b w to rl sfx off              *)
+(*   pk_new cap bk pre / w k x b res after / pk_end res written canary owner *)
+(*   up_new demo data src pad res / r o n res v b w to rl sfx empty off    *)
+(*   helpers items: [f, a, b, n, res, v, out, ints, warn]   free helper functions *)
+(*   iu_new xs / ir o res v w to rest empty                 IntUnpacker    *)
 (***************************************************************************)
-EXTENDS PackOps, TLC, Json, IOUtils
+EXTENDS PackOps, PackHelpers, TLC, Json, IOUtils
 
 Rec == ndJsonDeserialize(IOEnv.TRACE)
 N == Len(Rec)
@@ -59,7 +61,7 @@ Decs(e) == /\ \A k \in 1..Len(e.items) : PropDec(e.items[k])
 (* ------------------------------------------------------------ packer *)
 \* buf: the detailed model's buffer; plen: the real length so far; acc / accpre: the ACCEPTED items and
 \* the concatenation of their wire forms
-PkNewSt(e) == [m |-> "pk", cap |-> e.cap, buf |-> <<>>, plen |-> 0, allok |-> TRUE, accpre |-> <<>>, acc |-> <<>>]
+PkNewSt(e) == [m |-> "pk", cap |-> e.cap, buf |-> <<>>, plen |-> 0, allok |-> TRUE, accpre |-> <<>>, acc |-> <<>>, pre |-> e.pre, bk |-> e.bk]
 
 Item(e) == [k |-> e.k, x |-> e.x, b |-> e.b]
 W(e) == LET it == Item(e)
@@ -90,12 +92,19 @@ PkEnd(e) == /\ st.m = "pk"
             \* behind can only follow them)
             /\ Len(st.accpre) <= Len(e.written) /\ SubSeq(e.written, 1, Len(st.accpre)) = st.accpre
             /\ Detail(e.written = st.buf, "buffer contents after a refused write")
+            \* whatever memory with_packer was given (slice, Vec, ArrayVec): its owner holds what it held before,
+            \* then written() (the buffer abstraction itself is C19's subject: detail here)
+            /\ Detail(e.owner = st.pre \o e.written, "owner of the memory (" \o st.bk \o ") does not hold old contents + written()")
 PkEndSt(e) == [m |-> "done", written |-> e.written, clean |-> Len(e.written) = Len(st.accpre), items |-> st.acc]
 
 (* ------------------------------------------------------------ unpacker *)
-UpNew(e) == /\ e.demo => Len(e.data) % 4 = 0
+\* new_from_demo asserts that the data is padded to a multiple of four bytes: the only refusal there is
+UpNew(e) == /\ e.res \in {"ok", "panic"}
+            /\ e.res = "panic" => (e.demo /\ Len(e.data) % 4 # 0)
+            /\ Detail(e.res = "ok" => (e.demo => Len(e.data) % 4 = 0), "new_from_demo accepted data that is not padded")
             /\ e.src = "packer" => (st.m = "done" /\ e.data = st.written \o Zeros(e.pad))
-UpNewSt(e) == IF e.src = "packer"
+UpNewSt(e) == IF e.res # "ok" THEN [m |-> "idle"] ELSE
+              IF e.src = "packer"
               THEN [m |-> "up", data |-> e.data, demo |-> e.demo, pos |-> 0, pad |-> e.pad,
                     rt |-> TRUE, clean |-> st.clean, items |-> st.items, wlen |-> Len(st.written), sync |-> TRUE, ridx |-> 1]
               ELSE [m |-> "up", data |-> e.data, demo |-> e.demo, pos |-> 0, pad |-> 0,
@@ -103,6 +112,8 @@ UpNewSt(e) == IF e.src = "packer"
 
 R(e) == LET op == Op(e.o, e.n)
             x == Read(st.data, st.pos, st.demo, op)
+            \* what the property prescribes: sanitize (strsan) is not part of it, read_string is
+            xp == IF e.o = "strsan" THEN RStr(st.data, st.pos) ELSE x
             d == DecodeAt(st.data, st.pos)
             \* the documentation prescribes the value only for zero padding bits
             defined == ~(e.o \in {"int", "data"} /\ d.r = "ok" /\ d.pad # 0)
@@ -110,14 +121,15 @@ R(e) == LET op == Op(e.o, e.n)
             w == SeqToSet(e.w) IN
         /\ st.m = "up"
         \* never runs past the input; results are slices of the input
-        /\ e.res \in {"ok", "end"} /\ e.sfx = TRUE
+        /\ e.res \in {"ok", "end"} \cup (IF e.o = "strsan" THEN {"ctrl"} ELSE {}) /\ e.sfx = TRUE
         /\ e.to + e.rl = Len(st.data) /\ st.pos <= e.to /\ e.to <= Len(st.data)
-        /\ Len(e.b) > 0 => /\ e.off >= st.pos /\ e.off + Len(e.b) <= e.to
-                           /\ e.b = SubSeq(st.data, e.off + 1, e.off + Len(e.b))
+        /\ (Len(e.b) > 0 /\ e.o # "uuid") => /\ e.off >= st.pos /\ e.off + Len(e.b) <= e.to
+                                            /\ e.b = SubSeq(st.data, e.off + 1, e.off + Len(e.b))
+        /\ (e.o = "uuid" /\ e.res = "ok") => e.b = SubSeq(st.data, st.pos + 1, st.pos + UUIDLEN) /\ e.to = st.pos + UUIDLEN
         \* the result the format prescribes
-        /\ defined => /\ (e.res = "ok") <=> (x.res = "ok")
-                      /\ e.res = "ok" => /\ e.b = x.b /\ e.to = x.to /\ e.v = x.v
-                                         /\ (w = {}) <=> (x.w = {})
+        /\ defined => /\ (e.res = "end") <=> (xp.res = "end")
+                      /\ e.res = "ok" => /\ e.b = xp.b /\ e.to = xp.to /\ e.v = xp.v
+                                         /\ (w = {}) <=> (xp.w = {})
         /\ ~defined => ((e.res = "ok" /\ e.o = "int") => e.to = x.to /\ w # {})
         \* accepted items are read back identically (also when other writes of the session were
         \* refused), with no warning
@@ -125,15 +137,47 @@ R(e) == LET op == Op(e.o, e.n)
               LET it == st.items[st.ridx] IN
               /\ e.res = "ok" /\ w = {} /\ e.to = st.pos + Len(Enc(it))
               /\ IF it.k = "int" THEN e.v = it.x ELSE e.b = it.b
+        \* ... a written string also through the sanitising read when it has no control character
+        /\ (insync /\ e.o = "strsan" /\ st.items[st.ridx].k = "str") =>
+              LET it == st.items[st.ridx] IN
+              /\ e.res # "end" /\ e.to = st.pos + Len(Enc(it)) /\ (e.res = "ok" => e.b = it.b)
         \* ... and nothing is left over but the padding
         /\ (st.rt /\ st.clean /\ st.sync /\ st.ridx = Len(st.items) + 1) =>
               /\ st.pos = st.wlen
               /\ e.o = "finish" => ((w = {}) <=> (IF st.demo THEN st.pad < 4 ELSE st.pad = 0))
-              /\ (e.o \in {"int", "str", "data"} /\ st.pad = 0) => e.res = "end"
-        /\ Detail(e.res = x.res /\ e.v = x.v /\ e.b = x.b /\ w = x.w /\ Len(e.w) = Cardinality(x.w) /\ e.to = x.to,
+              /\ (e.o \in {"int", "str", "strsan", "data", "uuid"} /\ st.pad = 0) => e.res = "end"
+        /\ Detail(e.res = x.res /\ e.v = x.v /\ e.b = x.b /\ w = x.w /\ Len(e.w) = Cardinality(x.w) /\ e.to = x.to
+                  /\ e.empty = (e.rl = 0),
                   "read " \o e.o \o " differs in detail: " \o ToString(e) \o " model " \o ToString(x))
 RSt(e) == [st EXCEPT !.pos = e.to, !.ridx = @ + 1,
-                     !.sync = @ /\ st.ridx <= Len(st.items) /\ Op(e.o, e.n) = MatchingOp(st.items[st.ridx])]
+                     !.sync = @ /\ st.ridx <= Len(st.items)
+                                /\ (Op(e.o, e.n) = MatchingOp(st.items[st.ridx]) \/ (e.o = "strsan" /\ st.items[st.ridx].k = "str"))]
+
+(* ------------------------------------------------------------ helper functions (extension; detail level) *)
+\* a call the API permits never panics (property level: a panic is never acceptable); everything else
+\* about the helpers is not named by C08: deviations are reported as drift
+HelperItem(r) == LET x == Helper(Call(r.f, r.a, r.b, r.n)) IN
+                 /\ r.res = "panic" => x.res = "panic"
+                 /\ r.res # "canary"
+                 /\ Detail(r.res = x.res /\ r.v = x.v /\ r.out = x.b /\ r.ints = x.ints /\ r.warn = x.warn,
+                           "helper " \o r.f \o " differs: " \o ToString(r) \o " model " \o ToString(x))
+Helpers(e) == \A k \in 1..Len(e.items) : HelperItem(e.items[k])
+
+(* ------------------------------------------------------------ IntUnpacker (extension) *)
+IuNewSt(e) == [m |-> "iu", xs |-> e.xs, pos |-> 0]
+IR(e) == LET x == IUOp(st.xs, st.pos, e.o)
+             n == Len(st.xs) IN
+         /\ st.m = "iu" /\ e.o \in {"int", "finish"}
+         /\ e.res \in {"ok", "end"}
+         \* never past the slice; as_slice() is what is left
+         /\ st.pos <= e.to /\ e.to <= n /\ e.rest = SubSeq(st.xs, e.to + 1, n)
+         \* the integers come back identically and in order; behind the end every read fails
+         /\ e.o = "int" => /\ (e.res = "ok") <=> (st.pos < n)
+                           /\ e.res = "ok" => e.v = st.xs[st.pos + 1] /\ e.to = st.pos + 1
+         /\ e.o = "finish" => ((e.w = <<>>) <=> (st.pos = n))
+         /\ Detail(e.res = x.res /\ e.v = x.v /\ SeqToSet(e.w) = x.w /\ Len(e.w) = Cardinality(x.w) /\ e.to = x.to
+                   /\ e.empty = (e.to = n), "IntUnpacker " \o e.o \o " differs in detail: " \o ToString(e))
+IRSt(e) == [st EXCEPT !.pos = e.to]
 
 (* ------------------------------------------------------------ the trace *)
 Accept(e) == CASE e.e = "ints"   -> Ints(e)
@@ -143,12 +187,17 @@ Accept(e) == CASE e.e = "ints"   -> Ints(e)
                [] e.e = "pk_end" -> PkEnd(e)
                [] e.e = "up_new" -> UpNew(e)
                [] e.e = "r"      -> R(e)
+               [] e.e = "helpers" -> Helpers(e)
+               [] e.e = "iu_new" -> TRUE
+               [] e.e = "ir"     -> IR(e)
                [] OTHER          -> FALSE
 NextSt(e) == CASE e.e = "pk_new" -> PkNewSt(e)
                [] e.e = "w"      -> WSt(e)
                [] e.e = "pk_end" -> PkEndSt(e)
                [] e.e = "up_new" -> UpNewSt(e)
                [] e.e = "r"      -> RSt(e)
+               [] e.e = "iu_new" -> IuNewSt(e)
+               [] e.e = "ir"     -> IRSt(e)
                [] OTHER          -> st
 
 Init == i = 1 /\ st = [m |-> "idle"]
